@@ -85,7 +85,7 @@ def r13_8(ctx: Ctx) -> None:
         for c in wcalls:
             par = next((k.value for k in c.keywords if k.arg == "parallel"), c.args[2] if len(c.args) > 2 else None)
             srcs = [par] + list(q.sources_of(f, par, depth=3)) if par is not None else []
-            ok = (isinstance(par, ast.Constant) and par.value is False) or any(isinstance(x, ast.Name) and x.id in flags for e in srcs for x in ast.walk(e))
+            ok = (isinstance(par, ast.Constant) and par.value is False) or (par is not None and shared.off_when(f, par, lambda e: isinstance(e, ast.Name) and e.id in flags))
             ctx.check(ok, "R13.8", f, c, "folders are extracted in order when a member name was rewritten",
                       "a duplicated member name is rewritten to `<name>_<n>` but folders may still be extracted in parallel: members `a`, `a`, `a_0` in three folders make two "
                       "workers write `<out>/a_0`, and which content survives depends on the schedule (sequential extraction keeps the real `a_0`)",
@@ -113,7 +113,7 @@ def r13_8(ctx: Ctx) -> None:
             for c in wcalls:
                 par = next((k.value for k in c.keywords if k.arg == "parallel"), c.args[2] if len(c.args) > 2 else None)
                 srcs = [par] + list(q.sources_of(f, par, depth=3)) if par is not None else []
-                if any(isinstance(x, ast.Name) and x.id in {s_.targets[0].id for s_ in sets} for e in srcs for x in ast.walk(e)):
+                if par is not None and shared.off_when(f, par, lambda e: isinstance(e, ast.Name) and e.id in {s_.targets[0].id for s_ in sets}):
                     ok = True
         # every member's path is added: the add is not conditional on the test
         every = addc is not None and not any(pol is not None and isinstance(cd, ast.Compare) and norm(cd.comparators[0]) == sname for cd, pol in q.facts_at(f, addc) if isinstance(cd, ast.Compare) and cd.comparators)
@@ -384,8 +384,13 @@ def run(ctx: Ctx) -> None:
             for wc in [x for x in q.calls(exf) if "py7zr:Worker.extract" in shared.targets_of(ctx, exf, x)]:
                 par = next((k.value for k in wc.keywords if k.arg == "parallel"), wc.args[2] if len(wc.args) > 2 else None)
                 srcs = [par] + list(q.sources_of(exf, par, depth=3)) if par is not None else []
-                guarded = any(isinstance(n, ast.Name) and n.id == "writer_factory" for e in srcs for n in ast.walk(e)) or \
-                    any(isinstance(n, ast.Attribute) and n.attr == "mp" for e in srcs for n in ast.walk(e))
+                # `parallel` is off whenever process tasks (self.mp) meet in-memory writers (a writer factory was given)
+                def in_mem(e: ast.AST) -> bool:
+                    if isinstance(e, ast.Name):
+                        vals = q.assigned_values(exf, e.id)
+                        return bool(vals) and all(in_mem(v) for v in vals)
+                    return shared.implied_by_all(e, {"self.mp", "writer_factory is not None"})
+                guarded = par is not None and ((isinstance(par, ast.Constant) and par.value is False) or shared.off_when(exf, par, in_mem))
                 if mem_regs and not guarded:
                     ctx.fail("R13.4", exf, wc, "with mp=True folder tasks are processes, but extraction into a writer factory registers in-memory writers (MemIO) in the parent: "
                              "the children fill their own copies, extract(targets, factory=...) / extractall(factory=...) return normally and the factory's products stay empty",
